@@ -163,8 +163,8 @@ func schedReqKinds(st snapStream, streams int) []areq {
 	if st.Len >= 1 {
 		l = append(l, blockingReq(0, next-1, 0), blockingReq(0, next-1, 9)) // complete; past its end
 	}
-	if st.NextPartID > 0 || st.HasNext {
-		l = append(l, areq{Kind: "path", Stream: 0, PKind: "part", ID: uint64(st.NextPartID)}) // preload hint (once registered)
+	if st.NextPartID > 0 {
+		l = append(l, areq{Kind: "path", Stream: 0, PKind: "part", ID: uint64(st.NextPartID)}) // preload hint (registered by the first part rotation)
 	}
 	if streams == 2 {
 		l = append(l, blockingReq(1, next, op), areq{Kind: "media", Stream: 1})
@@ -196,9 +196,9 @@ func main() {
 	var scens []scenario
 	var genErr []string
 	thorough := *tier == "thorough"
-	nSeq, nSched, nClose := 100, 300, 200
+	nSeq, nSched, nClose := 150, 1000, 800
 	if thorough {
-		nSeq, nSched, nClose = 1500, 5000, 5000
+		nSeq, nSched, nClose = 2000, 20000, 15000
 	}
 	nSeq, nSched, nClose = nSeq**scale, nSched**scale, nClose**scale
 
@@ -235,6 +235,7 @@ func main() {
 	var cases []caseRec
 	dist := map[string]int{}
 	seen := map[string]bool{}
+	confirmed := map[string]int{}
 	distinct := 0
 	var samples []json.RawMessage
 	var shard *os.File
@@ -262,8 +263,17 @@ func main() {
 			infra = append(infra, fmt.Sprintf("scenario %d (%s): %s", id, sc.Kind, res.infraErr))
 			continue
 		}
-		if len(res.fails) > 0 {
-			// a finding must reproduce: three runs, the same signatures
+		needConfirm := false
+		for _, f := range res.fails {
+			if confirmed[f.Signature] < 5 {
+				needConfirm = true
+			}
+		}
+		if len(res.fails) > 0 && !needConfirm {
+			failures = append(failures, res.fails...)
+		} else if len(res.fails) > 0 {
+			// a finding must reproduce: three runs, the same signatures (done for the first
+			// five scenarios of every signature; later ones are counted as observed)
 			keep := map[string]int{}
 			for _, f := range res.fails {
 				keep[f.Signature] = 1
@@ -283,6 +293,10 @@ func main() {
 			for _, f := range res.fails {
 				if keep[f.Signature] == 3 {
 					failures = append(failures, f)
+					confirmed[f.Signature]++
+				} else if sc.Kind == "close" && sc.Order == "free" {
+					// the free run is a genuine race: an outcome that does not repeat is not a finding
+					dist["close:free:outcome-not-repeated"]++
 				} else {
 					infra = append(infra, fmt.Sprintf("scenario %d: failure %s did not reproduce 3 times", id, f.Signature))
 				}
@@ -329,6 +343,19 @@ func main() {
 	}
 	// smallest input first per signature
 	sort.SliceStable(failures, func(i, j int) bool { return len(failures[i].Input) < len(failures[j].Input) })
+	// keep the ten smallest inputs of every signature; the totals go to the distribution
+	{
+		per := map[string]int{}
+		var kept []failure
+		for _, f := range failures {
+			dist["failure:"+f.Signature]++
+			if per[f.Signature] < 10 {
+				per[f.Signature]++
+				kept = append(kept, f)
+			}
+		}
+		failures = kept
+	}
 	for _, e := range genErr {
 		infra = append(infra, "generator: "+e)
 	}
@@ -363,8 +390,11 @@ func genSeq(seed uint64, n int, work string, errs *[]string) []scenario {
 		r := rng.New(seed, uint64(1000000+i))
 		cfg := mcfg{Variant: "LL", SegCount: 7 + r.Pick(6, 1, 1), Streams: 1 + r.Pick(3, 1)}
 		h := genHistory(r, 2, 40)
-		if i < 6 && len(h) > 2+i {
-			h = h[:2+i] // the first moments of a stream
+		small := [][]bool{{true, true}, {true, false, false, true}, {true, false, false, true, false, false},
+			{true, false, false, true, false, false, false, true, false}, {true, false}, {true}}
+		if i < len(small) {
+			h = small[i] // the first moments of a stream
+			cfg = mcfg{Variant: "LL", SegCount: 7, Streams: 1}
 		}
 		s, err := quickSnapshot(cfg, h, work)
 		if err != nil {
